@@ -47,7 +47,7 @@ func expandFacts(p *Prog, f *ssa.Function, depth int, onStack map[*ssa.Function]
 		if call == nil {
 			continue
 		}
-		h := call.Call.StaticCallee()
+		h := calleeOf(&call.Call)
 		if onStack[h] || p.opaque[h] {
 			continue
 		}
@@ -120,7 +120,7 @@ func helperOutcome(p *Prog, a Atom) (*ssa.Call, string) {
 		if cl == nil {
 			return nil, ""
 		}
-		h := cl.Call.StaticCallee()
+		h := calleeOf(&cl.Call)
 		if h == nil || !p.InModule(h) || h.Blocks == nil {
 			return nil, ""
 		}
@@ -137,7 +137,7 @@ func helperOutcome(p *Prog, a Atom) (*ssa.Call, string) {
 		if cl == nil {
 			return nil, ""
 		}
-		h := cl.Call.StaticCallee()
+		h := calleeOf(&cl.Call)
 		if h == nil || !p.InModule(h) || h.Blocks == nil {
 			return nil, ""
 		}
@@ -236,7 +236,7 @@ func outcomeAlts(p *Prog, h *ssa.Function, kind string, holds bool, e env, depth
 					if n == "errors.New" || n == "fmt.Errorf" {
 						return true, !holds
 					}
-					if h2 := cl.Call.StaticCallee(); h2 != nil && p.InModule(h2) && alwaysFails(h2, 0) {
+					if h2 := calleeOf(&cl.Call); h2 != nil && p.InModule(h2) && alwaysFails(h2, 0) {
 						return true, !holds
 					}
 				}
@@ -266,7 +266,7 @@ func outcomeAlts(p *Prog, h *ssa.Function, kind string, holds bool, e env, depth
 				a := Atom{Kind: "nil", X: v}
 				fa := factAtom{withEnv(a), holds}
 				out := [][]factAtom{append(append([]factAtom{}, base...), fa)}
-				if h2 := cl.Call.StaticCallee(); h2 != nil && p.InModule(h2) && h2.Blocks != nil && depth > 0 && !onStack[h2] && !p.opaque[h2] {
+				if h2 := calleeOf(&cl.Call); h2 != nil && p.InModule(h2) && h2.Blocks != nil && depth > 0 && !onStack[h2] && !p.opaque[h2] {
 					e2 := env{}
 					for k2, v2 := range e {
 						e2[k2] = v2
@@ -306,8 +306,8 @@ func outcomeAlts(p *Prog, h *ssa.Function, kind string, holds bool, e env, depth
 			fa := factAtom{withEnv(a), holds == pos}
 			out := [][]factAtom{append(append([]factAtom{}, base...), fa)}
 			// a returned helper call: its own outcome alternatives
-			if cl, k := helperOutcome(p, a); cl != nil && depth > 0 && !onStack[cl.Call.StaticCallee()] && !p.opaque[cl.Call.StaticCallee()] {
-				h2 := cl.Call.StaticCallee()
+			if cl, k := helperOutcome(p, a); cl != nil && depth > 0 && !onStack[calleeOf(&cl.Call)] && !p.opaque[calleeOf(&cl.Call)] {
+				h2 := calleeOf(&cl.Call)
 				e2 := env{}
 				for k2, v2 := range e {
 					e2[k2] = v2
@@ -398,7 +398,7 @@ func alwaysFails(h *ssa.Function, d int) bool {
 			n++
 			continue
 		}
-		if h2 := cl.Call.StaticCallee(); h2 != nil && h2 != h && alwaysFails(h2, d+1) {
+		if h2 := calleeOf(&cl.Call); h2 != nil && h2 != h && alwaysFails(h2, d+1) {
 			n++
 			continue
 		}
